@@ -55,6 +55,7 @@ func (s Seg) String() string {
 type Peer struct {
 	H             *wire.Host
 	V6            bool
+	RemoteMAC     tcpip.LinkAddress // source link address of injected frames (resolution-required links)
 	Stack4, Peer4 [4]byte
 	Stack6, Peer6 [16]byte
 	mu            sync.Mutex
@@ -194,7 +195,7 @@ func (p *Peer) Packet(t rfc.TCP) (tcpip.NetworkProtocolNumber, []byte) {
 
 func (p *Peer) SendNoSettle(t rfc.TCP) {
 	proto, b := p.Packet(t)
-	p.H.L.Inject(proto, b, "")
+	p.H.L.Inject(proto, b, p.RemoteMAC)
 }
 
 // NewHost builds the stack under test for scripted-peer checks.
